@@ -127,7 +127,7 @@ def case_nocache(case, obs) -> None:
         if not same:
             obs.violation(f"nocache:result-differs:{tkind}:{type(m.system).__name__}",
                           f"{tkind} with caching active gives pos {a[0]!r}, with caching defeated {b[0]!r}; sys={spec} int={ispec}")
-    obs.token("nocache", spec["sys"], spec.get("metric", spec.get("constr", "-")), ispec["int"], tkind)
+    obs.token("nocache", spec["sys"], spec.get("metric", spec.get("constr", spec.get("generic", "-"))), ispec["int"], tkind)
 
 
 def _stats_equal(x, y):
@@ -204,7 +204,7 @@ def run_case(case, obs) -> None:
             runner.start(rng)
             runner.run(prog)
             obs.count("template_histories")
-        obs.token("templates", spec["sys"], spec.get("metric", spec.get("constr", "-")))
+        obs.token("templates", spec["sys"], spec.get("metric", spec.get("constr", spec.get("generic", "-"))))
         return
     spec = case["spec"]
     rng = np.random.default_rng([abs(int(s)) for s in case["seed"]])
@@ -214,5 +214,5 @@ def run_case(case, obs) -> None:
     runner.run(prog)
     obs.count("histories")
     sig = sorted({op[0] for op in prog})
-    obs.token("history", spec["sys"], spec.get("metric", spec.get("constr", "-")), sig, len(prog) > 12)
+    obs.token("history", spec["sys"], spec.get("metric", spec.get("constr", spec.get("generic", "-"))), sig, len(prog) > 12)
     obs.sample({"sys": spec["sys"], "program": prog[:10]})
